@@ -499,9 +499,12 @@ func TimeoutWithCodeHandler(h RequestHandler, timeout time.Duration, msg string,
 
 	return func(ctx *RequestCtx) {
 		concurrencyCh := ctx.s.concurrencyCh
+		vhook("th.try", ctx, nil, 0, 0)
 		select {
 		case concurrencyCh <- struct{}{}:
+			vhook("th.enter", ctx, nil, len(concurrencyCh), cap(concurrencyCh))
 		default:
+			vhook("th.429", ctx, nil, len(concurrencyCh), cap(concurrencyCh))
 			ctx.Error(msg, StatusTooManyRequests)
 			return
 		}
@@ -513,14 +516,19 @@ func TimeoutWithCodeHandler(h RequestHandler, timeout time.Duration, msg string,
 		}
 		go func() {
 			h(ctx)
+			vhook("th.hdone", ctx, nil, 0, 0)
 			ch <- struct{}{}
+			vhook("th.rel.pre", ctx, nil, 0, 0)
 			<-concurrencyCh
+			vhook("th.rel", ctx, nil, len(concurrencyCh), 0)
 		}()
 		ctx.timeoutTimer = initTimer(ctx.timeoutTimer, timeout)
 		select {
 		case <-ch:
+			vhook("th.done", ctx, nil, 0, 0)
 		case <-ctx.timeoutTimer.C:
 			ctx.TimeoutErrorWithCode(msg, statusCode)
+			vhook("th.timeout", ctx, nil, 0, 0)
 		}
 		stopTimer(ctx.timeoutTimer)
 	}
@@ -2652,6 +2660,7 @@ func (s *Server) serveConnCounted(c net.Conn, countConcurrency bool) error {
 
 		// If a client denies a request the handler should not be called
 		if continueReadingRequest {
+			vhook("srv.h.start", ctx, c, int(connRequestNum), 0)
 			s.Handler(ctx)
 		}
 
@@ -2669,6 +2678,7 @@ func (s *Server) serveConnCounted(c net.Conn, countConcurrency bool) error {
 			// Acquire a new ctx because the old one will still be in use by the timeout out handler.
 			ctx = s.acquireCtx(c)
 			timeoutResponse.CopyTo(&ctx.Response)
+			vhook("srv.ctxswap", ctx, c, int(connRequestNum), 0)
 		}
 
 		if ctx.IsHead() || (timeoutResponse != nil && isHead) {
@@ -2717,6 +2727,7 @@ func (s *Server) serveConnCounted(c net.Conn, countConcurrency bool) error {
 			if err = writeResponse(ctx, bw); err != nil {
 				break
 			}
+			vhook("srv.resp", ctx, c, int(connRequestNum), 0)
 
 			// Only flush the writer if we don't have another request in the pipeline.
 			// This is a big of an ugly optimization for https://www.techempower.com/benchmarks/
@@ -2786,6 +2797,7 @@ func (s *Server) serveConnCounted(c net.Conn, countConcurrency bool) error {
 		releaseWriter(s, bw)
 	}
 	if hijackHandler == nil {
+		vhook("srv.conn.end", ctx, c, 0, 0)
 		s.releaseCtx(ctx)
 	}
 
